@@ -1,6 +1,7 @@
 /-
 C08, part 8 — liveness with COLD caches on one switched LAN: the ARP resolution cascade (request flooded by a switch that has
-learned nothing, reply switched back) turns a cold pair of hosts into a warm one, and the ping then succeeds.
+learned nothing — past any number of other hosts, which only log it and spend its shared TTL —, reply switched back) turns a
+cold pair of hosts into a warm one, and the ping then succeeds.
 -/
 import PrimaiteModel.Props.C08Liveness
 namespace Primaite.Forward
@@ -187,6 +188,197 @@ theorem flood_one (fuel : Nat) (st : St) (s i pb : Nat) (f : Frame) (sb : Iface)
         · exact h
       exact ihp (List.nodup_cons.1 hnd).2 hmem' (fun q hq => hs q (List.mem_cons_of_mem _ hq))
 
+/-! ### … and through a switch with OTHER HOSTS on it: they only log the reception and spend the shared TTL -/
+
+/-- `hostAccepts` reads only the interfaces of the node. -/
+theorem hostAccepts_ifaces (nd nd' : Node) (ifc : Iface) (f : Frame) (h : nd.ifaces = nd'.ifaces) :
+    hostAccepts nd ifc f = hostAccepts nd' ifc f := by
+  unfold hostAccepts; rw [h]
+
+/-- port `p` of node `s` is quiet for frames addressed to `(dm, dip)`: silent, or cabled to an interface that is down, or
+to the NIC of a host that does not accept such frames. -/
+def QuietPort (st : St) (s p : Nat) (dm : Mac) (dip : Ip) : Prop :=
+  ∀ pif, st.iface? s p = some pif → pif.enabled = false ∨ pif.peer = none ∨
+    ∃ m j, pif.peer = some (m, j) ∧
+      (st.iface? m j = none ∨ ∃ nif nd, st.iface? m j = some nif ∧ st.node? m = some nd ∧
+        (nif.enabled = false ∨ (nd.kind = .host ∧ ∀ g : Frame, g.dstMac = dm → g.dstIp = dip → hostAccepts nd nif g = false)))
+
+/-- `g'` is `g` after at most `k` receptions. -/
+def Later (g g' : Frame) (k : Nat) : Prop :=
+  g'.dstMac = g.dstMac ∧ g'.dstIp = g.dstIp ∧ g'.srcIp = g.srcIp ∧ g'.srcMac = g.srcMac ∧ g'.pl = g.pl ∧ g'.id = g.id ∧
+    g'.ttl ≤ g.ttl ∧ g.ttl - k ≤ g'.ttl
+
+theorem Later.refl (g : Frame) : Later g g 0 := ⟨rfl, rfl, rfl, rfl, rfl, rfl, Int.le_refl _, by omega⟩
+
+theorem Later.step {g g' : Frame} {k : Nat} (h : Later g g' k) : Later g g'.dec (k + 1) := by
+  obtain ⟨h1, h2, h3, h4, h5, h6, h7, h8⟩ := h
+  refine ⟨h1, h2, h3, h4, h5, h6, ?_, ?_⟩
+  · show g'.ttl - 1 ≤ g.ttl; omega
+  · show g.ttl - ((k + 1 : Nat) : Int) ≤ g'.ttl - 1; omega
+
+theorem Later.mono {g g' : Frame} {k k' : Nat} (h : Later g g' k) (hk : k ≤ k') : Later g g' k' := by
+  obtain ⟨h1, h2, h3, h4, h5, h6, h7, h8⟩ := h
+  exact ⟨h1, h2, h3, h4, h5, h6, h7, by omega⟩
+
+/-- one quiet port: the state gains at most one log entry, the frame at most one reception. -/
+theorem quiet_step (fuel : Nat) (X : St) (s i p : Nat) (g : Frame) (h : QuietPort X s p g.dstMac g.dstIp ∨ p = i) :
+    ∃ L g', floodStep (fuel + 1) s i (X, g) p = ({ X with log := L ++ X.log }, g') ∧ Later g g' 1 := by
+  have hid : ∃ L g', ((X, g) : St × Frame) = ({ X with log := L ++ X.log }, g') ∧ Later g g' 1 :=
+    ⟨[], g, rfl, (Later.refl g).mono (by omega)⟩
+  unfold floodStep
+  split
+  · rename_i pif hp
+    rcases h with h | h
+    · rcases h pif hp with h1 | h1 | ⟨m, j, hpeer, h1⟩
+      · simpa [h1] using hid
+      · split
+        · simp only [sendFrame, hp, h1]
+          split <;> exact hid
+        · exact hid
+      · split
+        · rename_i hen
+          have hen' : pif.enabled = true := by
+            simp only [Bool.and_eq_true] at hen; exact hen.1
+          rcases h1 with h1 | ⟨nif, nd, hnif, hnd, h1⟩
+          · simp only [sendFrame, hp, hen', hpeer, h1, Bool.not_true, Bool.false_eq_true, if_false]
+            exact hid
+          · rcases h1 with h1 | ⟨hk, hacc⟩
+            · simp only [sendFrame, hp, hen', hpeer, hnif, h1, Bool.not_true, Bool.false_eq_true, if_false, Bool.not_false, if_true]
+              exact hid
+            · cases hne : nif.enabled with
+              | false =>
+                simp only [sendFrame, hp, hen', hpeer, hnif, hne, Bool.not_true, Bool.false_eq_true, if_false, Bool.not_false, if_true]
+                exact hid
+              | true =>
+                have hacc' : hostAccepts nd nif g.dec = false := hacc g.dec rfl rfl
+                refine ⟨[.rx m j g.id g.ttl], g.dec, ?_, (Later.refl g).step⟩
+                simp only [sendFrame, hp, hen', hpeer, hnif, hne, Bool.not_true, Bool.false_eq_true, if_false, ifaceRecv, hnd, hk, hacc']
+                split <;> rfl
+        · exact hid
+    · simpa [h] using hid
+  · exact hid
+
+theorem node?_of_cfgOf {X : St} {c : List NodeCfg} (h : cfgOf X = c) {m : Nat} {nc : NodeCfg} (hm : c[m]? = some nc) :
+    ∃ nd, X.node? m = some nd ∧ nd.cfg = nc := by
+  subst h
+  unfold cfgOf at hm
+  simp only [List.getElem?_map] at hm
+  unfold St.node?
+  cases hx : X.nodes[m]? with
+  | none => rw [hx] at hm; cases hm
+  | some nd => rw [hx] at hm; exact ⟨nd, rfl, by simpa using hm⟩
+
+/-- the same, read off the (static) configuration. -/
+def QuietPortC (c : List NodeCfg) (s p : Nat) (dm : Mac) (dip : Ip) : Prop :=
+  ∀ pif, (c[s]?).bind (fun nc => nc.ifaces[p]?) = some pif → pif.enabled = false ∨ pif.peer = none ∨
+    ∃ m j, pif.peer = some (m, j) ∧
+      ((c[m]?).bind (fun nc => nc.ifaces[j]?) = none ∨ ∃ nif nc, (c[m]?).bind (fun nc => nc.ifaces[j]?) = some nif ∧ c[m]? = some nc ∧
+        (nif.enabled = false ∨ (nc.kind = .host ∧
+          ∀ (nd : Node) (g : Frame), nd.ifaces = nc.ifaces → g.dstMac = dm → g.dstIp = dip → hostAccepts nd nif g = false)))
+
+theorem quietPort_of_cfg {X : St} {c : List NodeCfg} (hc : cfgOf X = c) {s p : Nat} {dm : Mac} {dip : Ip}
+    (h : QuietPortC c s p dm dip) : QuietPort X s p dm dip := by
+  intro pif hp
+  rw [iface?_eq_cfg, hc] at hp
+  rcases h pif hp with h1 | h1 | ⟨m, j, hpeer, h1⟩
+  · exact Or.inl h1
+  · exact Or.inr (Or.inl h1)
+  · refine Or.inr (Or.inr ⟨m, j, hpeer, ?_⟩)
+    rcases h1 with h1 | ⟨nif, nc, hnif, hnc, h1⟩
+    · left; rw [iface?_eq_cfg, hc]; exact h1
+    · right
+      obtain ⟨nd, hnd, hcfg⟩ := node?_of_cfgOf hc hnc
+      refine ⟨nif, nd, by rw [iface?_eq_cfg, hc]; exact hnif, hnd, ?_⟩
+      rcases h1 with h1 | ⟨hk, hacc⟩
+      · exact Or.inl h1
+      · right
+        have hk' : nd.kind = .host := by rw [← hcfg] at hk; exact hk
+        have hif : nd.ifaces = nc.ifaces := by rw [← hcfg]; rfl
+        exact ⟨hk', fun g h1 h2 => hacc nd g hif h1 h2⟩
+
+theorem log_log (X : St) (L1 L2 : List Ev) :
+    ({ ({ X with log := L1 ++ X.log } : St) with log := L2 ++ ({ X with log := L1 ++ X.log } : St).log } : St) =
+      { X with log := (L2 ++ L1) ++ X.log } := by
+  simp [List.append_assoc]
+
+/-- a flood over quiet ports only: the state gains log entries, the frame loses at most one TTL unit per port. -/
+theorem quiet_fold (fuel : Nat) (c : List NodeCfg) (s i : Nat) (dm : Mac) (dip : Ip) (ports : List Nat)
+    (hq : ∀ p ∈ ports, QuietPortC c s p dm dip ∨ p = i) :
+    ∀ (X : St) (g : Frame), cfgOf X = c → g.dstMac = dm → g.dstIp = dip →
+      ∃ L g', ports.foldl (floodStep (fuel + 1) s i) (X, g) = ({ X with log := L ++ X.log }, g') ∧ Later g g' ports.length := by
+  induction ports with
+  | nil => intro X g _ _ _; exact ⟨[], g, rfl, Later.refl g⟩
+  | cons p ps ihp =>
+    intro X g hX hm hd
+    simp only [List.foldl_cons]
+    have hp : QuietPort X s p g.dstMac g.dstIp ∨ p = i := by
+      rcases hq p List.mem_cons_self with h | h
+      · left; rw [hm, hd]; exact quietPort_of_cfg hX h
+      · exact Or.inr h
+    obtain ⟨L1, g1, e1, l1⟩ := quiet_step fuel X s i p g hp
+    rw [e1]
+    obtain ⟨L2, g2, e2, l2⟩ := ihp (fun q hq' => hq q (List.mem_cons_of_mem _ hq')) { X with log := L1 ++ X.log } g1 hX
+      (by rw [l1.1]; exact hm) (by rw [l1.2.1]; exact hd)
+    refine ⟨L2 ++ L1, g2, by rw [e2, log_log], ?_⟩
+    obtain ⟨a1, a2, a3, a4, a5, a6, a7, a8⟩ := l1
+    obtain ⟨b1, b2, b3, b4, b5, b6, b7, b8⟩ := l2
+    refine ⟨b1.trans a1, b2.trans a2, b3.trans a3, b4.trans a4, b5.trans a5, b6.trans a6, by omega, ?_⟩
+    simp only [List.length_cons]
+    omega
+
+/-- the flood loop over a switch with ONE port `pb` that matters besides the ingress, all others quiet: quiet receptions,
+then the frame goes out of `pb` (its TTL lowered by at most the number of ports), then quiet receptions. -/
+theorem flood_one_quiet (fuel : Nat) (st : St) (s i pb : Nat) (f : Frame) (sb : Iface) (ports : List Nat)
+    (hnd : ports.Nodup) (hmem : pb ∈ ports) (hpi : pb ≠ i) (hsb : st.iface? s pb = some sb) (hen : sb.enabled = true)
+    (hq : ∀ p ∈ ports, p ≠ pb → QuietPortC (cfgOf st) s p f.dstMac f.dstIp ∨ p = i) :
+    ∃ (L1 : List Ev) (g1 : Frame) (post : List Nat), Later f g1 ports.length ∧ (∀ p ∈ post, QuietPortC (cfgOf st) s p f.dstMac f.dstIp ∨ p = i) ∧
+      floodPorts (fuel + 3) st s i f ports =
+        post.foldl (floodStep (fuel + 1) s i) (sendFrame (fuel + 2) { st with log := L1 ++ st.log } s pb g1) := by
+  rw [floodPorts_eq]
+  suffices hgen : ∀ (X : St) (g : Frame) (k : Nat), cfgOf X = cfgOf st → X.iface? s pb = some sb → Later f g k →
+      ∃ (L1 : List Ev) (g1 : Frame) (post : List Nat), Later f g1 (k + ports.length) ∧ (∀ p ∈ post, QuietPortC (cfgOf st) s p f.dstMac f.dstIp ∨ p = i) ∧
+        ports.foldl (floodStep (fuel + 1) s i) (X, g) =
+          post.foldl (floodStep (fuel + 1) s i) (sendFrame (fuel + 2) { X with log := L1 ++ X.log } s pb g1) by
+    obtain ⟨L1, g1, post, h1, h2, h3⟩ := hgen st f 0 rfl hsb (Later.refl f)
+    exact ⟨L1, g1, post, by simpa using h1, h2, h3⟩
+  induction ports with
+  | nil => cases hmem
+  | cons p ps ihp =>
+    intro X g k hX hXsb hl
+    simp only [List.foldl_cons]
+    by_cases hp : p = pb
+    · subst hp
+      have hne : (p != i) = true := by simpa using hpi
+      have hstep : floodStep (fuel + 1) s i (X, g) p = sendFrame (fuel + 2) X s p g := by
+        unfold floodStep
+        simp only [hXsb, hen, hne, Bool.and_self, if_true]
+      rw [hstep]
+      have hnot : p ∉ ps := (List.nodup_cons.1 hnd).1
+      refine ⟨[], g, ps, hl.mono (by omega), ?_, by simp⟩
+      intro q hq'
+      exact hq q (List.mem_cons_of_mem _ hq') (fun h => hnot (h ▸ hq'))
+    · have hqp : QuietPort X s p g.dstMac g.dstIp ∨ p = i := by
+        rcases hq p List.mem_cons_self hp with h | h
+        · left; rw [hl.1, hl.2.1]; exact quietPort_of_cfg hX h
+        · exact Or.inr h
+      obtain ⟨L0, g0, e0, l0⟩ := quiet_step fuel X s i p g hqp
+      rw [e0]
+      have hmem' : pb ∈ ps := by
+        rcases List.mem_cons.1 hmem with h | h
+        · exact absurd h.symm hp
+        · exact h
+      have hl' : Later f g0 (k + 1) := by
+        obtain ⟨a1, a2, a3, a4, a5, a6, a7, a8⟩ := hl
+        obtain ⟨b1, b2, b3, b4, b5, b6, b7, b8⟩ := l0
+        exact ⟨b1.trans a1, b2.trans a2, b3.trans a3, b4.trans a4, b5.trans a5, b6.trans a6, by omega, by omega⟩
+      obtain ⟨L1, g1, post, h1, h2, h3⟩ := ihp (List.nodup_cons.1 hnd).2 hmem' (fun q hq' => hq q (List.mem_cons_of_mem _ hq'))
+        { X with log := L0 ++ X.log } g0 (k + 1) hX hXsb hl'
+      refine ⟨L1 ++ L0, g1, post, ?_, h2, ?_⟩
+      · simp only [List.length_cons]
+        have : k + 1 + ps.length = k + (ps.length + 1) := by omega
+        rw [← this]; exact h1
+      · rw [h3, log_log]
+
 /-! ### the steps of an ARP exchange, each for an arbitrary state with the local facts -/
 
 /-- a single-NIC host: its only interface is number 0. -/
@@ -318,6 +510,56 @@ theorem switch_flood_step (fuel : Nat) (X : St) (s i pb : Nat) (nd : Node) (ifc 
   rw [s1, s2, s3, ← hY]
   rfl
 
+/-- the same with OTHER HOSTS on the switch: every other port is quiet for this frame. -/
+theorem switch_flood_step_quiet (fuel : Nat) (X : St) (s i pb : Nat) (nd : Node) (ifc sb : Iface) (f : Frame)
+    (hn : X.node? s = some nd) (hk : nd.kind = .switch) (hi : nd.ifaces[i]? = some ifc) (hsb : nd.ifaces[pb]? = some sb)
+    (hen : sb.enabled = true) (hpi : pb ≠ i) (httl : 2 ≤ f.ttl)
+    (hflood : f.dstMac = bcastMac ∨ (nd.learnMac f.srcMac i).macPort f.dstMac = none)
+    (hq : ∀ p, p ≠ pb → p ≠ i → QuietPortC (cfgOf X) s p f.dstMac f.dstIp) :
+    ∃ (L1 : List Ev) (g1 : Frame) (post : List Nat), Later f.dec g1 nd.ifaces.length ∧
+      (∀ p ∈ post, QuietPortC (cfgOf X) s p f.dstMac f.dstIp ∨ p = i) ∧
+      ifaceRecv (fuel + 5) X s i f = post.foldl (floodStep (fuel + 1) s i)
+        (sendFrame (fuel + 2) { ((X.emit (.rx s i f.id f.ttl)).modNode s (fun nd => nd.learnMac f.srcMac i)) with
+          log := L1 ++ ((X.emit (.rx s i f.id f.ttl)).modNode s (fun nd => nd.learnMac f.srcMac i)).log } s pb g1) := by
+  have hi' : X.iface? s i = some ifc := by unfold St.iface?; unfold St.node? at hn; rw [hn]; exact hi
+  have h1 : ¬ f.dec.ttl < 1 := by unfold Frame.dec; simp only; omega
+  have s1 : ifaceRecv (fuel + 5) X s i f = switchRecv (fuel + 4) (X.emit (.rx s i f.id f.ttl)) s i f.dec := by
+    simp only [ifaceRecv, hn, hi', h1, if_false, hk]
+  generalize hY : (X.emit (.rx s i f.id f.ttl)).modNode s (fun nd => nd.learnMac f.dec.srcMac i) = Y
+  have hYc : cfgOf Y = cfgOf X := by rw [← hY, cfgOf_learnMac, cfgOf_emit]
+  have hYn : Y.node? s = some (nd.learnMac f.srcMac i) := by
+    rw [← hY]; exact node?_learn _ s i _ nd (by rw [node?_emit]; exact hn)
+  have hlen : (nd.learnMac f.srcMac i).ifaces = nd.ifaces := congrArg NodeCfg.ifaces (learnMac_cfg nd f.srcMac i).1
+  have s2 : switchRecv (fuel + 4) (X.emit (.rx s i f.id f.ttl)) s i f.dec =
+      floodPorts (fuel + 3) Y s i f.dec (List.range nd.ifaces.length) := by
+    simp only [switchRecv, hY, hYn, hlen]
+    rcases hflood with hb | hnone
+    · have hb' : (f.dec.dstMac != bcastMac) = false := by simp [Frame.dec, hb]
+      split
+      · simp only [hb', Bool.false_eq_true, if_false]
+      · rfl
+    · have : (nd.learnMac f.srcMac i).macPort f.dec.dstMac = none := hnone
+      simp only [this]
+  have hYi : ∀ p, Y.iface? s p = nd.ifaces[p]? := by
+    intro p
+    unfold St.iface?; unfold St.node? at hYn; rw [hYn, Option.bind_some, hlen]
+  obtain ⟨L1, g1, post, l1, hp, e3⟩ := flood_one_quiet fuel Y s i pb f.dec sb (List.range nd.ifaces.length) List.nodup_range
+    (by
+      rw [List.mem_range]
+      rcases Nat.lt_or_ge pb nd.ifaces.length with h | h
+      · exact h
+      · rw [List.getElem?_eq_none h] at hsb; cases hsb)
+    hpi (by rw [hYi]; exact hsb) hen
+    (by
+      intro p _ hpb
+      by_cases hpi' : p = i
+      · exact Or.inr hpi'
+      · left; rw [hYc]; exact hq p hpb hpi')
+  refine ⟨L1, g1, post, by simpa using l1, ?_, ?_⟩
+  · intro p hp'; have := hp p hp'; rw [hYc] at this; exact this
+  · rw [s1, s2, e3, ← hY]
+    rfl
+
 /-- a switch that knows the destination's port (after learning the source on the ingress port) passes the frame on. -/
 theorem switch_known_step (fuel : Nat) (X : St) (s i p : Nat) (nd : Node) (ifc : Iface) (f : Frame)
     (hn : X.node? s = some nd) (hk : nd.kind = .switch) (hi : nd.ifaces[i]? = some ifc) (httl : 2 ≤ f.ttl)
@@ -419,8 +661,8 @@ theorem Snap.iface {X Y : St} {c : List NodeCfg} {a b s : Nat} {A B S A' B' S' :
     (hY : Snap Y c a b s A' B' S') (n i : Nat) : Y.iface? n i = X.iface? n i :=
   iface?_of_cfgOf (hY.cfg.trans hX.cfg.symm) n i
 
-/-- two powered-on single-NIC hosts `a`, `b` of one subnet on ports `pa`, `pb` of switch `s` whose other ports are silent;
-neither knows the other (cold ARP caches); the switch table is arbitrary. -/
+/-- two powered-on single-NIC hosts `a`, `b` of one subnet on ports `pa`, `pb` of switch `s` whose other ports are quiet (dead, uncabled, or
+other hosts that drop the request); neither knows the other (cold ARP caches); the switch table is arbitrary. -/
 structure ColdLan (st : St) (a b s pa pb : Nat) (ndA ndB ndS : Node) (ifA ifB sa sb : Iface) : Prop where
   nodeA : st.node? a = some ndA
   kindA : ndA.kind = .host
@@ -446,7 +688,11 @@ structure ColdLan (st : St) (a b s pa pb : Nat) (ndA ndB ndS : Node) (ifA ifB sa
   as : a ≠ s
   bs : b ≠ s
   pab : pa ≠ pb
-  silent : ∀ p sp, ndS.ifaces[p]? = some sp → p ≠ pa → p ≠ pb → sp.enabled = false ∨ sp.peer = none
+  /-- every other port of the switch is quiet for A's ARP request: dead, uncabled, or cabled to the NIC of a host with another
+  address (which logs the reception and drops the frame) … -/
+  quiet : ∀ p, p ≠ pb → p ≠ pa → QuietPortC (cfgOf st) s p bcastMac ifB.ip
+  /-- … and there are few enough of them for the shared TTL to last until B's port is served. -/
+  fewPorts : ndS.ifaces.length ≤ 60
   netAB : ifA.inNet ifB.ip = true
   netBA : ifB.inNet ifA.ip = true
   macA : ifA.mac ≠ bcastMac
@@ -487,24 +733,46 @@ theorem lan_arp_exchange (fuel : Nat) (st : St) (a b s pa pb : Nat) (ndA ndB ndS
       Q.pl = .arpReq ifA.ip ifA.mac ifB.ip := by rw [← hQ]; exact ⟨rfl, rfl, rfl, rfl, rfl, rfl⟩
   obtain ⟨q1, q2, q3, q4, q5, q6⟩ := Qs
   rw [link_step (fuel + 14) st1 a 0 s pa ifA sa Q (by rw [S0.iface S1]; exact ifA0) h.enA h.peerA (by rw [S0.iface S1]; exact ifSa) h.saEn]
-  -- the switch floods it: only port pb is live
-  rw [switch_flood_step (fuel + 10) st1 s pa pb ndS sa sb Q S1.ns h.kindS h.portA h.portB h.sbEn (Ne.symm h.pab) (by rw [q5]; decide)
-    (Or.inl q2) (fun p sp hp h1 h2 => h.silent p sp hp h2 h1)]
-  generalize hst3 : (st1.emit (.rx s pa Q.id Q.ttl)).modNode s (fun nd => nd.learnMac Q.srcMac pa) = st3
+  -- the switch floods it: quiet receptions, then port pb, then quiet receptions
+  obtain ⟨L1, g1, post, lg, hpost, hfl⟩ := switch_flood_step_quiet (fuel + 9) st1 s pa pb ndS sa sb Q S1.ns h.kindS h.portA h.portB
+    h.sbEn (Ne.symm h.pab) (by rw [q5]; decide) (Or.inl q2) (by rw [S1.cfg, q2, q4]; exact h.quiet)
+  rw [hfl]
+  obtain ⟨g1m, g1d, g1s, g1sm, g1p, _, g1hi, g1lo⟩ := lg
+  have gm : g1.dstMac = bcastMac := g1m.trans q2
+  have gd : g1.dstIp = ifB.ip := g1d.trans q4
+  have gs : g1.srcIp = ifA.ip := g1s.trans q3
+  have gsm : g1.srcMac = ifA.mac := g1sm.trans q1
+  have gp : g1.pl = .arpReq ifA.ip ifA.mac ifB.ip := g1p.trans q6
+  have gttl : 2 ≤ g1.ttl := by
+    have : Q.dec.ttl = 63 := by show Q.ttl - 1 = 63; rw [q5]; rfl
+    have hf := h.fewPorts
+    omega
+  generalize hst3 : ({ ((st1.emit (.rx s pa Q.id Q.ttl)).modNode s (fun nd => nd.learnMac Q.srcMac pa)) with
+    log := L1 ++ ((st1.emit (.rx s pa Q.id Q.ttl)).modNode s (fun nd => nd.learnMac Q.srcMac pa)).log } : St) = st3
   have S3 : Snap st3 (cfgOf st) a b s ndA ndB (ndS.learnMac ifA.mac pa) := by
-    rw [← hst3, q1]; exact (S1.emit _).modS _ (fun nd => (learnMac_cfg nd _ _).1) h.as h.bs
-  rw [link_step (fuel + 10) st3 s pb b 0 sb ifB Q.dec (by rw [S0.iface S3]; exact ifSb) h.sbEn h.sbPeer (by rw [S0.iface S3]; exact ifB0) h.enB]
+    rw [← hst3, q1]
+    have := (S1.emit (.rx s pa Q.id Q.ttl)).modS (fun nd => nd.learnMac ifA.mac pa) (fun nd => (learnMac_cfg nd _ _).1) h.as h.bs
+    exact ⟨this.cfg, this.na, this.nb, this.ns⟩
+  rw [link_step (fuel + 10) st3 s pb b 0 sb ifB g1 (by rw [S0.iface S3]; exact ifSb) h.sbEn h.sbPeer (by rw [S0.iface S3]; exact ifB0) h.enB]
   -- B learns A and answers
-  rw [host_arp_req (fuel + 8) st3 b ndB ifB Q.dec ifA.ip ifA.mac S3.nb h.kindB h.onB h.ifsB q6 q2 q4
-    (by show 2 ≤ Q.ttl - 1; rw [q5]; decide)]
-  show Snap (sendArpReply (fuel + 8) _ b _) _ a b s _ _ _
-  generalize hst5 : ((st3.emit (.rx b 0 Q.dec.id Q.dec.ttl)).modNode b (fun nd => nd.addArp Q.dec.srcIp Q.dec.srcMac 0)).emit
-    (.sw b Q.dec.id Q.dec.dstIp true) = st5
+  rw [host_arp_req (fuel + 8) st3 b ndB ifB g1 ifA.ip ifA.mac S3.nb h.kindB h.onB h.ifsB gp gm gd gttl]
+  -- the receptions after B's port only add log entries
+  have hcz := (cAt (fuel + 8)).arpReply (((st3.emit (.rx b 0 g1.id g1.ttl)).modNode b (fun nd => nd.addArp g1.srcIp g1.srcMac 0)).emit
+    (.sw b g1.id g1.dstIp true)) b (.arpRep ifB.ip ifB.mac ifA.ip ifA.mac)
+  obtain ⟨L2, g2, e2, _⟩ := quiet_fold (fuel + 9) (cfgOf st) s pa bcastMac ifB.ip post
+    (by intro p hp; have := hpost p hp; rw [S1.cfg, q2, q4] at this; exact this)
+    (sendArpReply (fuel + 8) (((st3.emit (.rx b 0 g1.id g1.ttl)).modNode b (fun nd => nd.addArp g1.srcIp g1.srcMac 0)).emit
+      (.sw b g1.id g1.dstIp true)) b (.arpRep ifB.ip ifB.mac ifA.ip ifA.mac)) g1.dec
+    (by rw [hcz, cfgOf_emit, cfgOf_addArp, cfgOf_emit]; exact S3.cfg) gm gd
+  rw [e2]
+  suffices hZ : Snap (sendArpReply (fuel + 8) (((st3.emit (.rx b 0 g1.id g1.ttl)).modNode b (fun nd => nd.addArp g1.srcIp g1.srcMac 0)).emit
+      (.sw b g1.id g1.dstIp true)) b (.arpRep ifB.ip ifB.mac ifA.ip ifA.mac)) (cfgOf st) a b s
+      ((ndA.addArp ifB.ip ifB.mac 0).addArp ifB.ip ifB.mac 0) (ndB.addArp ifA.ip ifA.mac 0)
+      ((ndS.learnMac ifA.mac pa).learnMac ifB.mac pb) from ⟨hZ.cfg, hZ.na, hZ.nb, hZ.ns⟩
+  generalize hst5 : ((st3.emit (.rx b 0 g1.id g1.ttl)).modNode b (fun nd => nd.addArp g1.srcIp g1.srcMac 0)).emit
+    (.sw b g1.id g1.dstIp true) = st5
   have S5 : Snap st5 (cfgOf st) a b s ndA (ndB.addArp ifA.ip ifA.mac 0) (ndS.learnMac ifA.mac pa) := by
-    rw [← hst5]
-    have e1 : Q.dec.srcIp = ifA.ip := q3
-    have e2 : Q.dec.srcMac = ifA.mac := q1
-    rw [e1, e2]
+    rw [← hst5, gs, gsm]
     exact (((S3.emit _).modB _ (fun nd => addArp_cfg nd _ _ _) h.ab h.bs).emit _)
   rw [host_arp_reply_send (fuel + 5) st5 b (ndB.addArp ifA.ip ifA.mac 0) ifB ifB.ip ifB.mac ifA.ip ifA.mac S5.nb
     (by rw [addArp_ifaces]; exact h.ifsB) h.enB h.netBA]
@@ -676,10 +944,12 @@ theorem hostArpNext_first (nd : Node) (ip : Ip) : ∃ gw', hostArpNext nd ip fal
 theorem ColdLan.withNextId {st : St} {a b s pa pb : Nat} {ndA ndB ndS : Node} {ifA ifB sa sb : Iface}
     (h : ColdLan st a b s pa pb ndA ndB ndS ifA ifB sa sb) (k : Nat) :
     ColdLan ({ st with nextId := k } : St) a b s pa pb ndA ndB ndS ifA ifB sa sb :=
-  ⟨h.nodeA, h.kindA, h.onA, h.ifsA, h.enA, h.peerA, h.nodeB, h.kindB, h.onB, h.ifsB, h.enB, h.peerB, h.nodeS, h.kindS, h.portA, h.saEn, h.saPeer, h.portB, h.sbEn, h.sbPeer, h.ab, h.as, h.bs, h.pab, h.silent, h.netAB, h.netBA, h.macA, h.macB, h.macAB, h.ipAB, h.coldA, h.coldB, h.notNet, h.notBc⟩
+  ⟨h.nodeA, h.kindA, h.onA, h.ifsA, h.enA, h.peerA, h.nodeB, h.kindB, h.onB, h.ifsB, h.enB, h.peerB, h.nodeS, h.kindS, h.portA, h.saEn, h.saPeer, h.portB, h.sbEn, h.sbPeer, h.ab, h.as, h.bs, h.pab, h.quiet, h.fewPorts, h.netAB, h.netBA, h.macA, h.macB, h.macAB, h.ipAB, h.coldA, h.coldB, h.notNet, h.notBc⟩
 
-/-- **LIVENESS WITH COLD CACHES, one switched LAN.**  Two powered-on single-NIC hosts of one subnet on a switch whose other
-ports are silent, neither host knowing the other, the switch's MAC table in ANY state: `ping` (one echo) returns `True`.
+/-- **LIVENESS WITH COLD CACHES, one switched LAN.**  Two powered-on single-NIC hosts of one subnet on a switch (≤ 60 ports)
+whose other ports are quiet — dead, uncabled, or cabled to the NICs of OTHER HOSTS, which log the flooded request, spend one
+unit of its shared TTL each and drop it —, neither host knowing the other, the switch's MAC table in ANY state: `ping` (one
+echo) returns `True`.
 The ARP cascade is part of the statement: A's request is flooded (the switch learns A's port), B learns A and answers, the
 switch learns B's port and returns the reply through A's port, A learns B; then the echo request and the echo reply are
 switched (no flood) and the reply is counted.  For every fuel ≥ 20. -/
@@ -759,42 +1029,59 @@ theorem C08_permitted_exchange_succeeds_cold_lan (fuel : Nat) (st : St) (a b s p
   rw [addArp_replies, replyCount_bump ndA.replies st.nextId hrep]
   rfl
 
-/-! ### non-vacuity: a concrete cold LAN (two hosts, a four-port switch with one dead and one uncabled port) -/
+/-! ### non-vacuity: a concrete cold LAN (three hosts on a four-port switch, one port uncabled, a stale table entry) -/
 
 def clA : Iface := { mac := 11, ip := 0xC0A80102#32, plen := 24, enabled := true, peer := some (1, 0) }
 def clB : Iface := { mac := 12, ip := 0xC0A80103#32, plen := 24, enabled := true, peer := some (1, 1) }
+def clC : Iface := { mac := 13, ip := 0xC0A80104#32, plen := 24, enabled := true, peer := some (1, 2) }
 def clS0 : Iface := { mac := 21, ip := 0#32, plen := 0, enabled := true, peer := some (0, 0) }
 def clS1 : Iface := { mac := 22, ip := 0#32, plen := 0, enabled := true, peer := some (2, 0) }
-def clS2 : Iface := { mac := 23, ip := 0#32, plen := 0, enabled := false, peer := some (3, 0) }
+def clS2 : Iface := { mac := 23, ip := 0#32, plen := 0, enabled := true, peer := some (3, 0) }
 def clS3 : Iface := { mac := 24, ip := 0#32, plen := 0, enabled := true, peer := none }
 def clHostA : Node := { kind := .host, ifaces := [clA] }
 def clSwitch : Node := { kind := .switch, ifaces := [clS0, clS1, clS2, clS3], macTable := [(12, 3)] }  -- a stale entry for B
 def clHostB : Node := { kind := .host, ifaces := [clB], gateway := some 0xC0A80101#32 }
-def clSt : St := { nodes := [clHostA, clSwitch, clHostB] }
+def clHostC : Node := { kind := .host, ifaces := [clC] }
+def clSt : St := { nodes := [clHostA, clSwitch, clHostB, clHostC] }
 
 theorem clLan : ColdLan clSt 0 2 1 0 1 clHostA clHostB clSwitch clA clB clS0 clS1 :=
   { nodeA := rfl, kindA := rfl, onA := rfl, ifsA := rfl, enA := rfl, peerA := rfl, nodeB := rfl, kindB := rfl, onB := rfl,
     ifsB := rfl, enB := rfl, peerB := rfl, nodeS := rfl, kindS := rfl, portA := rfl, saEn := rfl, saPeer := rfl, portB := rfl,
     sbEn := rfl, sbPeer := rfl, ab := by decide, as := by decide, bs := by decide, pab := by decide,
-    silent := by
-      intro p sp hp h1 h2
+    quiet := by
+      intro p h1 h2 pif hp
       match p, hp with
-      | 0, _ => exact absurd rfl h1
-      | 1, _ => exact absurd rfl h2
-      | 2, hp => left; have : sp = clS2 := by simpa [clSwitch] using hp.symm
-                 subst this; rfl
-      | 3, hp => right; have : sp = clS3 := by simpa [clSwitch] using hp.symm
-                 subst this; rfl
-      | (k + 4), hp => simp [clSwitch] at hp,
+      | 0, _ => exact absurd rfl h2
+      | 1, _ => exact absurd rfl h1
+      | 2, hp =>
+        -- host C hears the request, logs it and drops it
+        have : pif = clS2 := by
+          have : some clS2 = some pif := hp
+          simpa using this.symm
+        subst this
+        refine Or.inr (Or.inr ⟨3, 0, rfl, Or.inr ⟨clC, clHostC.cfg, rfl, rfl, Or.inr ⟨rfl, ?_⟩⟩⟩)
+        intro nd g _ hm hd
+        unfold hostAccepts
+        rw [hm, hd]
+        simp only [beq_self_eq_true, if_true]
+        decide
+      | 3, hp =>
+        have : pif = clS3 := by
+          have : some clS3 = some pif := hp
+          simpa using this.symm
+        subst this
+        exact Or.inr (Or.inl rfl)
+      | (k + 4), hp => exact absurd hp (by simp [cfgOf, clSt, clSwitch, Node.cfg]),
+    fewPorts := by decide,
     netAB := by decide, netBA := by decide, macA := by decide, macB := by decide, macAB := by decide, ipAB := by decide,
     coldA := rfl, coldB := rfl, notNet := by decide, notBc := by decide }
 
-/-- the theorem applies (cold caches, a stale switch entry for B on the wrong port) … -/
+/-- the theorem applies (cold caches, a third host on the switch, a stale switch entry for B on the wrong port) … -/
 example : (ping 20 clSt 0 clB.ip 1).2 = true :=
   C08_permitted_exchange_succeeds_cold_lan 0 clSt 0 2 1 0 1 clHostA clHostB clSwitch clA clB clS0 clS1 clLan rfl
 /-- … and agrees with evaluation; with the NIC of B disabled the same ping fails (the hypotheses matter). -/
 example : (ping 20 clSt 0 clB.ip 1).2 = true := by decide +kernel
-example : (ping 200 { clSt with nodes := [clHostA, clSwitch, { clHostB with ifaces := [{ clB with enabled := false }] }] } 0 clB.ip 1).2 = false := by
-  decide +kernel
+example : (ping 200 { clSt with nodes := [clHostA, clSwitch, { clHostB with ifaces := [{ clB with enabled := false }] }, clHostC] }
+    0 clB.ip 1).2 = false := by decide +kernel
 
 end Primaite.Forward
